@@ -53,12 +53,16 @@ pub fn stmts() -> ZooLang {
         .supertype("_expr")
         .inline("_inl_stmt")
         .rule("program", rep(sym("_statement")))
-        .rule("_statement", choice(vec![sym("let_stmt"), sym("if_stmt"), sym("_inl_stmt"), sym("block"), sym("fn_def"), sym("empty_stmt"), sym("annotation"), sym("sigil_decl")]))
+        .rule("_statement", choice(vec![sym("let_stmt"), sym("if_stmt"), sym("_inl_stmt"), sym("block"), sym("fn_def"), sym("empty_stmt"), sym("annotation"), sym("sigil_decl"), sym("use_stmt")]))
         // one visible rule under two different aliases in two productions of the same parent: replacing the sigil switches the
         // production, and with it the child's node type, without touching the child
-        .rule("sigil_decl", choice(vec![seq(vec![s("$"), alias(sym("identifier"), "variable", true), s(";")]), seq(vec![s("%"), alias(sym("identifier"), "module", true), s(";")])]))
+        .rule("sigil_decl", choice(vec![seq(vec![s("$"), alias(sym("identifier"), "variable", true), s(";")]), seq(vec![s("%"), alias(sym("identifier"), "module", true), s(";")]),
+            // ... and under an ANONYMOUS per-production alias (identifier also occurs un-aliased, so this is no default alias)
+            seq(vec![s("&"), alias(sym("identifier"), "target", false), s(";")])]))
         // `block_comment` is an extra AND a regular member of this rule: a reused comment token can change its extra-ness
         .rule("annotation", seq(vec![s("@"), sym("block_comment")]))
+        // a rule that ENDS in a repetition (greedy): appended elements extend the repetition of a reused node
+        .rule("use_stmt", prec_right(0, seq(vec![s("use"), rep1(sym("identifier"))])))
         .rule("_inl_stmt", sym("expr_stmt"))
         .rule("empty_stmt", s(";"))
         .rule("let_stmt", seq(vec![s("let"), field("name", alias(sym("identifier"), "name", true)), s("="), field("value", e()), s(";")]))
@@ -87,7 +91,7 @@ pub fn stmts() -> ZooLang {
         .extras(vec![pat("\\s"), sym("comment"), sym("block_comment"), sym("pragma")]);
     ZooLang {
         name: "stmts", spec: spec(g, None),
-        lexemes: vec!["let", "if", "else", "fn", "a", "1", "=", ";", "{", "}", "(", ")", "+", "*", "..", "...", ",", "#c\n", "/*c*/", "@", "$", "%", "~", " ", "\n"],
+        lexemes: vec!["let", "if", "else", "fn", "use", "a", "1", "=", ";", "{", "}", "(", ")", "+", "*", "..", "...", ",", "#c\n", "/*c*/", "@", "$", "%", "&", "~", " ", "\n"],
         seeds: vec![
             "", "a;", "let a = 1;", "let x = a + 1 * b;\nf(x, 2);\n", "if a { b; } else { c; }", "if a { } else if b { c; } else { d; }",
             "fn f(a, b) { let c = a..b; g(c)(1); }", "{ a; # note\n b; /* x */ c; }", "let a = (1 + 2) * 3 ... 4;", "lett = 1;", "let let = 1;",
@@ -96,6 +100,10 @@ pub fn stmts() -> ZooLang {
             "a+if(b);", "a*let(b);", "a+fn(b);", "f(else);", "$a; %b;", "$ if;", "a ~x + b; ~y", "let ~p a = ~q 1;", "{ ~a }", "~", "~ let",
             // an operand, then extras, then the token that decides how the operand is reduced
             "a + 1 ~b;", "a + 1 /*c*/;", "a + 1 ~b ~c ;", "a + 1 #c\n;",
+            // an extra directly in front of a child that carries a per-production alias (named and anonymous aliases)
+            "a /*c*/ ... b;", "a #c\n... b;", "a ~x ... b;", "let /*c*/ a = 1;", "$ /*c*/ a; % ~x b;", "& a;", "& /*c*/ a; & ~x b; & #c\n c;", "a .. /*c*/ b ... /*d*/ c;",
+            // a rule that ends in a repetition
+            "use a", "use a b c d", "use a b c d e f g h  ", "use a b; use c d e\nuse use", "{ use a b c d }",
         ],
         skippable: b" \t\r\n", has_scanner: false,
     }
@@ -339,6 +347,29 @@ pub fn colm() -> ZooLang {
     }
 }
 
+pub const MODAL_SCANNER: &str = include_str!("../../zoo/modal_scanner.c");
+
+/// Scanner state that flows across siblings: `!` toggles a mode, and every later word is a `loud_word` or a `plain_word`
+/// by the mode. An edit that adds or removes the document's first `!` changes the children of every later group without
+/// touching them (same symbol, same size), which only the scanner state in front of them reveals.
+pub fn modal() -> ZooLang {
+    let g = G::new("modal")
+        .external(sym("bang")).external(sym("loud_word")).external(sym("plain_word"))
+        .rule("source", rep(sym("_item")))
+        .rule("_item", choice(vec![sym("bang"), sym("loud_word"), sym("plain_word"), sym("group"), sym("number")]))
+        .rule("group", seq(vec![s("["), rep(sym("_item")), s("]")]))
+        .rule("number", pat("[0-9]+"))
+        .extras(vec![pat("\\s")]);
+    ZooLang {
+        name: "modal", spec: spec(g, Some(MODAL_SCANNER)),
+        lexemes: vec!["!", "1", "a", "[", "]", " "],
+        seeds: vec![
+            "", "a", "! a", "1   [abc]", "!   [abc]", "[a] ! [b] ! [c]", "1 [a [b] c] [d]", "[a ! b] c", "a [! [b]] c", "1 [a", "] a ! b", "[[a] 1 [b]] ! [[c]]", "1 [a] 2 [b] 3 [c] 4 [d]",
+        ],
+        skippable: b" \t\r\n", has_scanner: true,
+    }
+}
+
 pub fn tmpl() -> ZooLang {
     let g = G::new("tmpl")
         .rule("template", rep(choice(vec![sym("text"), sym("directive"), sym("output")])))
@@ -403,13 +434,13 @@ pub fn fixture(name: &'static str, lexemes: Vec<&'static str>, seeds: Vec<&'stat
 }
 
 pub fn core_zoo() -> Vec<ZooLang> {
-    vec![arith(), stmts(), jsonish(), glr(), lexla(), indent(), pstring(), lookfar(), resv(), colm()]
+    vec![arith(), stmts(), jsonish(), glr(), lexla(), indent(), pstring(), lookfar(), resv(), colm(), modal()]
 }
 
 pub fn by_name(name: &str) -> Option<ZooLang> {
     match name {
         "arith" => Some(arith()), "stmts" => Some(stmts()), "jsonish" => Some(jsonish()), "glr" => Some(glr()), "lexla" => Some(lexla()),
-        "indent" => Some(indent()), "pstring" => Some(pstring()), "lookfar" => Some(lookfar()), "groups" => Some(groups()), "resv" => Some(resv()), "tmpl" => Some(tmpl()), "tagl" => Some(tagl()), "colm" => Some(colm()),
+        "indent" => Some(indent()), "pstring" => Some(pstring()), "lookfar" => Some(lookfar()), "groups" => Some(groups()), "resv" => Some(resv()), "tmpl" => Some(tmpl()), "tagl" => Some(tagl()), "colm" => Some(colm()), "modal" => Some(modal()),
         _ => None,
     }
 }
